@@ -333,5 +333,64 @@ def applyBinary (rx : RegexEngine) : ArgPath → BinOp → Value → Value → O
   | .static => applyStatic rx
   | .tagged => applyTagged rx
 
+/-! ### a whole stream of contexts through ONE filter stage
+
+`apply_filter_with_tagged_argument_value` / `apply_filter_with_static_argument_value` are called
+once per filter and return an iterator adapter over *all* the contexts of the query; the closure
+they build (`apply_filter_op_with_tagged_argument` / `…_static_argument`, l. 349–380) captures
+only the operator function (and, on the variable path, the right value / the compiled regex).
+The model of the stage is therefore the per-context decision mapped over the stream: nothing is
+carried from one context to the next. -/
+
+/-- One context of a stream as the filter stage sees it: the left value popped from
+`ctx.values`, and the right operand — `some r` for `TaggedValue::Some(r)` (or the value of the
+query variable), `none` for `TaggedValue::NonexistentOptional`. -/
+abbrev StreamPair := Value × Option Value
+
+/-- What the stage decides for one context (`true`: the context is passed on).
+`let TaggedValue::Some(right_value) = tagged_value else { return Some(ctx); }` (l. 375–377): a
+tag from an `@optional` scope that does not exist lets the context through without calling the
+operator; otherwise `apply_filter_op` (the contexts of the stream have an active vertex, so
+`within_nonexistent_optional()` is false) returns `filter_op(left, right)` — the same function
+of one `(left, right)` pair that `applyBinary` models. -/
+def pairDecision (rx : RegexEngine) (path : ArgPath) (op : BinOp) : StreamPair → Outcome Bool
+  | (l, some r) => applyBinary rx path op l r
+  | (_, none) => .ok true
+
+/-- The decisions of one filter stage over a stream of contexts, in stream order. -/
+def filterStream (rx : RegexEngine) (path : ArgPath) (op : BinOp) (ps : List StreamPair) :
+    List (Outcome Bool) :=
+  ps.map (pairDecision rx path op)
+
+/-- Draining the stage's output iterator: a panic while deciding any context aborts the call
+(what was produced before is lost with it); otherwise one bit per context. -/
+def collectDecisions : List (Outcome Bool) → Outcome (List Bool)
+  | [] => .ok []
+  | .panic :: _ => .panic
+  | .ok b :: rest => (collectDecisions rest).map (b :: ·)
+
+/-- `verif_hooks::apply_tagged_stream`: all pairs through one
+`apply_filter_with_tagged_argument_value` call, drained. -/
+def taggedStreamAnswer (rx : RegexEngine) (op : BinOp) (ps : List StreamPair) :
+    Outcome (List Bool) :=
+  collectDecisions (filterStream rx .tagged op ps)
+
+/-- `verif_hooks::apply_static_stream`: all left values against one right value through one
+`apply_filter_with_static_argument_value` call, drained — as written: for the two regex
+operations the pattern is compiled ONCE, when the stage is built and before the first context is
+pulled (l. 458–460, 464–466), so an invalid pattern panics even on an empty stream; the other
+operations only move `right_value` into the closure. -/
+def staticStreamAnswer (rx : RegexEngine) (op : BinOp) (r : Value) (lefts : List Value) :
+    Outcome (List Bool) :=
+  match op with
+  | .regexMatches =>
+    (compileStaticRegex rx r).bind fun pattern =>
+      collectDecisions (lefts.map fun l => regexMatchesOptimized pattern l)
+  | .notRegexMatches =>
+    (compileStaticRegex rx r).bind fun pattern =>
+      collectDecisions (lefts.map fun l =>
+        notOp (fun l (p : Bytes → Bool) => regexMatchesOptimized p l) l pattern)
+  | op => collectDecisions (lefts.map fun l => applyStatic rx op l r)
+
 end Filter
 end TF
